@@ -139,6 +139,7 @@ def run_case(case):
     g = 8.0 if order == 1 else 64.0
     tol = 1e-9 * (g * core.maxabs(x) + bias) + 1e-300
     refs = reference(case, x, any_split=kf10)
+    allrefs = list(refs)
     errs = []
     for ref in refs:
         okc, err = core.close(z, ref, tol)
@@ -146,9 +147,21 @@ def run_case(case):
         if okc:
             break
     else:
+        if order == 2 and not multiple and not kf10:
+            # not the pinned split of the repeated border rows/columns: before calling it a violation, accept any
+            # other way of distributing them (the property only asks for "extended by repeating border rows/columns")
+            refs = reference(case, x, any_split=True)
+            allrefs += refs
+            for ref in refs:
+                okc, err = core.close(z, ref, tol)
+                errs.append(err)
+                if okc:
+                    r.label('other_border_split_accepted')
+                    break
+    if not any(e <= tol for e in errs):
         i = int(np.argmin(errs))
         r.fail('values:order%d%s%s' % (order, ':colour' if colour else '', ':bp' if bp else ''),
-               'differs from the reference composition: ' + core.first_mismatch(z, refs[i], tol))
+               'differs from the reference composition: ' + core.first_mismatch(z, allrefs[i], tol))
     r.metric('abs_err_over_scale', min(errs) / max(g * core.maxabs(x) + bias, 1e-300))
     mask = scatu.magnitude_mask(order, C, colour, z.shape[1])
     zm = z[:, mask]
